@@ -253,10 +253,13 @@ package transport
 
 // ---- C16 / C07: closing the standard transport closes the session AND the client (the connection below it) ----------------
 //@ ghost nClosed int
+//@ ghost sessErr error local
 //@ func (*Standard).Close [C16 C07]
 //@   after call Close#1 set nClosed = nClosed + 1
 //@   after call Close#2 set nClosed = nClosed + 1
 //@   at return assert #session-and-client-are-both-closed result == nil && old(t.session) != nil && old(t.client) != nil ==> nClosed == old(nClosed) + 2 && t.session == nil && t.client == nil
+//@   after call Close#1 set sessErr = result
+//@   at return assert #a-session-the-peer-closed-first-does-not-keep-the-client-open old(t.session) != nil && old(t.client) != nil && isErr(sessErr, io.EOF) ==> nClosed == old(nClosed) + 2
 //@   at return assert #a-client-without-session-is-closed-too result == nil && old(t.session) == nil && old(t.client) != nil ==> nClosed == old(nClosed) + 1 && t.client == nil
 
 // ---- C14: which way a transport is opened ----------------------------------------------------------------------------------
